@@ -337,7 +337,7 @@ static void scen_reg(void)
 }
 
 /* ================================================================== LIFE */
-static int life_cycles, life_ntrees, life_nreg, life_ncustom, life_null, life_fds_before, life_unbalanced_last;
+static int life_cycles, life_ntrees, life_nreg, life_ncustom, life_null, life_fds_before, life_unbalanced_last, life_argv;
 static uint64_t life_digest[8];
 static void scen_life(void)
 {
@@ -351,6 +351,29 @@ static void scen_life(void)
         cx_model_begin_expansion(&xmodel); cx_model_reset_store(&xmodel); memset(&xmodel, 0, sizeof xmodel); xmodel.n_custom = life_ncustom;
         cx_slots sl; cx_slots_init(&sl);
         uint64_t dg = 0x11FE;
+        if (life_argv) {
+            /* one configuration line handed over from the command line (stream argument NULL, "<context> <line>"): a begin, the line and an
+             * end for that context, and both stacks back where they were */
+            const char *cn = life_nreg ? NAMES[(life_ntrees + life_ncustom) % life_nreg] : "nosuchctx";      /* the same in every cycle */
+            char *l = malloc(CONFIG_BUFF); snprintf(l, CONFIG_BUFF, "%s argvkey value%d", cn, life_nreg);
+            char want[64]; snprintf(want, sizeof want, "argvkey value%d", life_nreg);
+            cx_log_reset();
+            int id = cx_ctxs_lookup(&ctxs, cn);
+            cx_expect(id, 'B', NULL, 0); cx_expect(id, 'T', want, strlen(want)); cx_expect(id, 'E', NULL, 0);
+            vh_op("  cycle %d: spifconf_parse_line(NULL, %s) -- a line from the command line", cyc, vh_qs(l));
+            spifconf_parse_line(NULL, (spif_charptr_t) l);
+            free(l);
+            vh_evals(1); vh_count("argv_lines", 1);
+            struct spifconf_verif_state st; const char *p = cx_tables_ok(&st);
+            if (p) vh_fail("tables", "after a line from argv: %s", p);
+            VH_CHECK(fstate_idx == 0, "parse_line:file-stack", "fstate_idx is %u after spifconf_parse_line(NULL, line) returned (entry value 0)", fstate_idx);
+            VH_CHECK(st.ctx_state_idx == 0, "parse_line:context-stack", "context stack depth %u after spifconf_parse_line(NULL, line) returned (entry value 0)", st.ctx_state_idx);
+            cx_slots s2; cx_slots_init(&s2); s2.state[0] = CX_OPAQUE;
+            const char *key = NULL; long nstate = 0;
+            const char *d = cx_compare_events(&ctxs, &s2, &key, &nstate);
+            if (d) vh_fail(key, "cycle %d, line from argv: %s", cyc, d);
+            for (int i = 0; i < cx_nev; i++) { dg = vh_mix(dg, (uint64_t) cx_evs[i].kind * 1000 + (uint64_t) cx_evs[i].ctx); dg = vh_hash_bytes(cx_text + cx_evs[i].off, cx_evs[i].len, dg); }
+        }
         for (int t = 0; t < life_ntrees; t++) {
             char name[32]; snprintf(name, sizeof name, "t%d_main.cfg", t);
             cx_file *mf = cx_file_find(name);
@@ -650,7 +673,7 @@ int main(int argc, char **argv)
                 case_find();
                 vh_count("find_cases", 1);
             } else if (kind == K_LIFE) {
-                life_cycles = (int) vh_range(1, 5); life_ntrees = (int) vh_range(1, 3); life_nreg = (int) vh_range(0, 12); life_ncustom = (int) vh_below(5); life_null = vh_coin(50);
+                life_cycles = (int) vh_range(1, 5); life_ntrees = (int) vh_range(1, 3); life_nreg = (int) vh_range(0, 12); life_ncustom = (int) vh_below(5); life_null = vh_coin(50); life_argv = vh_coin(40);
                 cx_ctxs_init(&ctxs);
                 if (life_null) cx_ctxs_register(&ctxs, "null", 0);
                 for (int i = 0; i < life_nreg; i++) cx_ctxs_register(&ctxs, NAMES[i], ctxs.n);
